@@ -390,6 +390,9 @@ func genSumWorld(r *rand.Rand, c *CliCase, l Layout, withDest bool) {
 		if chance(r, 0.1) {
 			nf = int(between(r, 6, 12))
 		}
+		if it == 0 && r.IntN(80) == 0 {
+			nf = int(between(r, 62, 140)) // more files than any pool or batch size
+		}
 		for f := 0; f < nf; f++ {
 			// dyadic values: every summation order gives the same float64
 			name := fmt.Sprintf("s%d.wsp", f)
@@ -492,6 +495,16 @@ func genViewWorld(r *rand.Rand, c *CliCase, l Layout) {
 			}
 		}
 	}
+	if chance(r, 0.15) {
+		// the writer's clock was ahead: points dated after the viewer's clock
+		// occupy the ring slots of instants one retention earlier
+		a := r.IntN(len(l.Archs))
+		var pts []LibPt
+		for j := int64(1); j <= between(r, 1, 3); j++ {
+			pts = append(pts, LibPt{Age: -j * l.Archs[a].S, V: FV(1000 + float64(j))})
+		}
+		f.Fills = append(f.Fills, WFill{ID: a, Pts: pts})
+	}
 	if chance(r, 0.12) {
 		// names that need care in a URL or a query string
 		f.Rel = oddName(r) + "/" + oddName(r) + ".wsp"
@@ -521,6 +534,10 @@ func genGenerate(r *rand.Rand, c *CliCase, l Layout) {
 			// the report goes to a standard output on which nothing can be written
 			c.EnvFault = "stdout-unwritable"
 			c.Cmd.TextOut = "stdout"
+		} else if chance(r, 0.5) {
+			// F10: the disk is full beyond an offset inside the file to generate
+			c.EnvFault = "disk-full"
+			c.Cmd.TextOut = "none"
 		}
 	} else if chance(r, 0.15) {
 		c.EnvFault = "dest-race"
@@ -534,7 +551,7 @@ func genGenerate(r *rand.Rand, c *CliCase, l Layout) {
 }
 
 func validCliCase(c *CliCase) bool {
-	if c.Clock0 < 946684800 || c.Clock0 > math.MaxUint32-3*400*86400 || len(c.Files) > 60 {
+	if c.Clock0 < 946684800 || c.Clock0 > math.MaxUint32-3*400*86400 || len(c.Files) > 400 {
 		return false
 	}
 	for _, f := range c.Files {
